@@ -5,6 +5,7 @@ from ..core.frequency import FrequencyAxis
 from ..core.dfunction import DFunction
 from ..core.datasaveable import DataSaveable
 from ..core.managers import EnergyUnitsManaged
+from ..core.managers import energy_units
 from ..core.units import cm2int
 
 
@@ -102,12 +103,13 @@ class AbsSpectrumBase(DFunction, EnergyUnitsManaged, DataSaveable):
         length = om.shape[0]
         step = (omax-omin)/length
         
-        # new frequency axis
-        waxis = FrequencyAxis(omin, length, step)
+        # new frequency axis (the values are in internal units by now)
+        with energy_units("int"):
+            waxis = FrequencyAxis(omin, length, step)
         
-        # spline interpolation 
-        tck = interpolate.splrep(om, y, s=0)
-        ynew = interpolate.splev(waxis.data, tck, der=0)
+            # spline interpolation 
+            tck = interpolate.splrep(om, y, s=0)
+            ynew = interpolate.splev(waxis.data, tck, der=0)
         
         # setting the axis and data
         self.axis = waxis
